@@ -6,6 +6,10 @@ Gen/RecfmParams.v:
                    0: remaining = self.buffer[self._used:]; self.buffer = remaining + self.source.read(K - len(remaining))
                    1: self.buffer = self.buffer[self._used:] + self.source.read(K - self._used)
   hdr_fmt      - struct format of every RDW/BDW pack/unpack in RECFM_F/V/VB: 0 for '>H2x', 1 for '<H2x'
+  vb_rdw_fits_strict - the comparison of the corruption check in the inner loop of RECFM_VB._data_iter,
+                   while <offset> != len(<block>): assert <offset> + 4 <op> len(<block>), ...
+                   true for '<' (the tree before eee0fb2: a record descriptor word that ends exactly at the end of the block
+                   is refused), false for '<=' (the mirrored spellings len(block) > / >= offset + 4 are read the same way)
 Any other shape raises Unrecognised (the pinned text is used and the run relies on the correspondence check).
 """
 import ast
@@ -40,6 +44,52 @@ def _is_used_slice(n, base_ok):
 def _is_len_of(n, name):
     return (isinstance(n, ast.Call) and isinstance(n.func, ast.Name) and n.func.id == "len" and len(n.args) == 1
             and isinstance(n.args[0], ast.Name) and n.args[0].id == name)
+
+
+def _vb_assert_strict(tree):
+    """RECFM_VB._data_iter: exactly one assert, inside a while <off> != len(<blk>) loop, of the shape
+    <off> + 4 < len(<blk>)  /  <off> + 4 <= len(<blk>)  (or mirrored); anything else is not recognised"""
+    fn = _func(tree, "_data_iter", "RECFM_VB")
+    asserts = [n for n in ast.walk(fn) if isinstance(n, ast.Assert)]
+    if len(asserts) != 1:
+        raise Unrecognised(f"RECFM_VB._data_iter: expected one assert, found {len(asserts)}")
+    loops = [n for n in ast.walk(fn) if isinstance(n, ast.While) and asserts[0] in n.body]
+    if len(loops) != 1:
+        raise Unrecognised("RECFM_VB._data_iter: the assert is not a statement of a while loop")
+    lt = loops[0].test
+    if not (isinstance(lt, ast.Compare) and len(lt.ops) == 1 and isinstance(lt.ops[0], ast.NotEq)
+            and isinstance(lt.left, ast.Name) and isinstance(lt.comparators[0], ast.Call)
+            and isinstance(lt.comparators[0].func, ast.Name) and lt.comparators[0].func.id == "len"
+            and len(lt.comparators[0].args) == 1 and isinstance(lt.comparators[0].args[0], ast.Name)
+            and not lt.comparators[0].keywords):
+        raise Unrecognised("RECFM_VB._data_iter: inner loop test is not <offset> != len(<block>)")
+    off, blk = lt.left.id, lt.comparators[0].args[0].id
+    if loops[0].body[0] is not asserts[0]:
+        raise Unrecognised("RECFM_VB._data_iter: the assert is not the first statement of the inner loop")
+    t = asserts[0].test
+    if not (isinstance(t, ast.Compare) and len(t.ops) == 1 and len(t.comparators) == 1):
+        raise Unrecognised("RECFM_VB._data_iter: assert test is not a single comparison")
+
+    def is_off4(n):
+        if not (isinstance(n, ast.BinOp) and isinstance(n.op, ast.Add)):
+            return False
+        a, b = n.left, n.right
+        four = lambda c: isinstance(c, ast.Constant) and type(c.value) is int and c.value == 4
+        name = lambda c: isinstance(c, ast.Name) and c.id == off
+        return (name(a) and four(b)) or (four(a) and name(b))
+
+    left, op, right = t.left, t.ops[0], t.comparators[0]
+    if is_off4(left) and _is_len_of(right, blk):
+        if isinstance(op, ast.Lt):
+            return True
+        if isinstance(op, ast.LtE):
+            return False
+    if _is_len_of(left, blk) and is_off4(right):
+        if isinstance(op, ast.Gt):
+            return True
+        if isinstance(op, ast.GtE):
+            return False
+    raise Unrecognised("RECFM_VB._data_iter: assert is not <offset> + 4 < / <= len(<block>)")
 
 
 def gen_RecfmParams(src):
@@ -129,12 +179,14 @@ def gen_RecfmParams(src):
         hdr = 1
     else:
         raise Unrecognised(f"header formats {sorted(map(str, fmts))}")
+    strict = _vb_assert_strict(tree)
     return (
         "(* GENERATED by harness/t1_c05.py from src/stingray/estruct.py RECFM_N / RECFM_F / RECFM_V / RECFM_VB -- do not edit *)\n"
         "From Coq Require Import NArith.\n"
         f"Definition buffer_size : N := {k_init}%N.\n"
         f"Definition refill_mode : N := {mode}%N.\n"
         f"Definition hdr_fmt : N := {hdr}%N.\n"
+        f"Definition vb_rdw_fits_strict : bool := {'true' if strict else 'false'}.\n"
     )
 
 
